@@ -5,6 +5,7 @@ UH = "src/cpp/undo-history.cpp"
 AU = "src/cpp/automations.cpp"
 PS = "include/rtosc/port-sugar.h"
 RC = "src/rtosc.c"
+PC = "src/cpp/ports.cpp"
 MUTANTS = [
  dict(id="C06", name="publish_before_copy", edits=[(TL,
   """    const off_t  next_write = (ring->write + len)%ring->size;
@@ -170,4 +171,18 @@ MUTANTS = [
  dict(id="C07", name="length_string_scan_skips_first_byte", edits=[(RC, "                while(deref(pos,ring)) ++pos;", "                while(deref(++pos,ring));")]),
  dict(id="C07", name="length_ignores_type_d", edits=[(RC, "            case 'h':\n            case 't':\n            case 'd':\n                pos += 8;\n                --toparse;", "            case 'h':\n            case 't':\n                pos += 8;\n                --toparse;\n                break;\n            case 'd':\n                pos += 4;\n                --toparse;")]),
  dict(id="C07", name="type_tag_terminator_not_required", edits=[(RC, "    return pos <= (ring[0].len+ring[1].len) ? pos : 0;\n}\n\nsize_t rtosc_message_length", "    return pos <= (ring[0].len+ring[1].len)+2 ? (pos > ring[0].len+ring[1].len ? ring[0].len+ring[1].len : pos) : 0;\n}\n\nsize_t rtosc_message_length")]),
+
+ # ---- C03 realtime safety
+ dict(id="C03", name="dispatch_copies_path_into_string", edits=[(PC, "    void *obj = d.obj;\n\n    //handle the first dispatch layer", "    std::string path_copy(m ? m : \"\"); if(path_copy.size() > 1000000) return;\n    void *obj = d.obj;\n\n    //handle the first dispatch layer")]),
+ dict(id="C03", name="reply_formats_into_vector", edits=[(PC, "void RtData::reply(const char *path, const char *args, ...)\n{\n    va_list va;\n    va_start(va,args);\n    char buffer[8192];\n    rtosc_vmessage(buffer,8192,path,args,va);\n    reply(buffer);",
+      "void RtData::reply(const char *path, const char *args, ...)\n{\n    va_list va;\n    va_start(va,args);\n    std::vector<char> vbuffer(8192); char *buffer = vbuffer.data();\n    rtosc_vmessage(buffer,8192,path,args,va);\n    reply(buffer);")]),
+ dict(id="C03", name="vmessage_heap_instead_of_vla", edits=[(RC, "    STACKALLOC(rtosc_arg_t, args, nargs);\n    rtosc_va_list_t ap2;\n    va_copy(ap2.a, ap);\n    rtosc_v2args(args, nargs, arguments, &ap2);\n\n    return rtosc_amessage(buffer,len,address,arguments,args);",
+      "    rtosc_arg_t *args = (rtosc_arg_t*)malloc(nargs*sizeof(rtosc_arg_t));\n    rtosc_va_list_t ap2;\n    va_copy(ap2.a, ap);\n    rtosc_v2args(args, nargs, arguments, &ap2);\n\n    size_t r_ = rtosc_amessage(buffer,len,address,arguments,args); free(args); return r_;"),
+      (RC, "#include <assert.h>\n\n#include <rtosc/rtosc.h>", "#include <assert.h>\n#include <stdlib.h>\n\n#include <rtosc/rtosc.h>")]),
+ dict(id="C03", name="dispatch_takes_a_mutex", edits=[(PC, "    void *obj = d.obj;\n\n    //handle the first dispatch layer", "    static std::recursive_mutex dispatch_mutex; std::lock_guard<std::recursive_mutex> dispatch_guard(dispatch_mutex);\n    void *obj = d.obj;\n\n    //handle the first dispatch layer"),
+      (PC, "#include <ostream>", "#include <ostream>\n#include <mutex>")]),
+ dict(id="C03", name="option_symbol_copied_into_string", edits=[(PC, "int rtosc::enum_key(Port::MetaContainer meta, const char* value)\n{\n    int result = std::numeric_limits<int>::min();", "int rtosc::enum_key(Port::MetaContainer meta, const char* value_)\n{\n    std::string value_s(std::string(\"symbol:\") + value_ + \"                \"); const char *value = value_s.c_str() + 7; value_s.resize(7 + strlen(value_));\n    int result = std::numeric_limits<int>::min();")]),
+ dict(id="C03", name="link_read_allocates_on_wrap", edits=[(TL, "    if(next_read < read) {\n        const size_t r1 = ring->size - read;", "    if(next_read < read) {\n        char *wrap_tmp = new char[len]; wrap_tmp[0] = ring->buffer[0]; { volatile char sink_ = wrap_tmp[0]; (void)sink_; } delete[] wrap_tmp;\n        const size_t r1 = ring->size - read;")]),
+ dict(id="C03", name="default_handler_std_function_copy", edits=[(PC, "            } else if(default_handler) {\n                d.matches++;\n                default_handler(m,d), d.obj = obj;", "            } else if(default_handler) {\n                d.matches++;\n                std::function<void(msg_t, RtData&)> handler_copy = default_handler; std::vector<int> seen_(32); handler_copy(m,d), d.obj = obj;")]),
+ dict(id="C03", name="match_duplicates_pattern", edits=[("src/dispatch.c", "    const char *arg_pattern = rtosc_match_path(pattern, msg, path_end);\n    if(!arg_pattern)\n        return false;", "    char *pattern_dup = (char*)malloc(strlen(pattern)+1);\n    strcpy(pattern_dup, pattern);\n    const char *arg_pattern = rtosc_match_path(pattern_dup, msg, path_end);\n    if(arg_pattern) arg_pattern = pattern + (arg_pattern - pattern_dup);\n    free(pattern_dup);\n    if(!arg_pattern)\n        return false;")]),
 ]
